@@ -31,6 +31,9 @@ type input struct {
 	Sampling int        `json:"sampling"`
 	Name     string     `json:"name"`
 	Queries  [][]string `json:"queries"`
+	// symhist: NValues short values of one label (so that the index has > 1024 symbols) and the references looked up, in order, on ONE reader
+	NValues int      `json:"nvalues,omitempty"`
+	Lookups []uint32 `json:"lookups,omitempty"`
 }
 
 func facts(repo string, w io.Writer) error {
@@ -56,6 +59,19 @@ func facts(repo string, w io.Writer) error {
 		}
 		fmt.Fprintf(w, "(* %s *)\nDefinition %s (valueCount n : Z) : bool := %s.\n", s.ExprString(c), names[i], e)
 	}
+	// LookupSymbol: the hit test of the value-symbol cache (all if-conditions of the function, in source order)
+	lc, err := storegwutil.IfConds(s, "BinaryReader.LookupSymbol", "")
+	if err != nil {
+		return err
+	}
+	var evs []common.Event
+	for _, c := range lc {
+		evs = append(evs, common.Event{Kind: "if", Text: s.ExprString(c)})
+	}
+	fmt.Fprintln(w, "(* BinaryReader.LookupSymbol: the conditions of its if statements, in source order *)")
+	fmt.Fprint(w, common.EventsCoq("lookup_symbol_conds", evs))
+	ok := len(lc) == 4 && s.ExprString(lc[2]) == `cached.index == o && cached.symbol != ""`
+	fmt.Fprintf(w, "(* the cache hit test compares the slot's index with the looked-up reference *)\nDefinition lookup_symbol_cond_ok : bool := %v.\n", ok)
 	fmt.Fprintf(w, "Definition not_found_range : Z * Z := (%d, %d).\n", indexheader.NotFoundRange.Start, indexheader.NotFoundRange.End)
 	return nil
 }
@@ -193,6 +209,12 @@ func run(raw json.RawMessage) (common.Case, error) {
 	c.Class = in.Kind
 	if in.Sampling < 1 {
 		return c, fmt.Errorf("sampling must be >= 1")
+	}
+	if in.Kind == "symhist" {
+		in.Series = nil
+		for i := 0; i < in.NValues; i++ {
+			in.Series = append(in.Series, []string{"job", "j", "v", fmt.Sprintf("%04d", i)})
+		}
 	}
 	e, err := build(in)
 	if err != nil {
@@ -419,10 +441,88 @@ func run(raw json.RawMessage) (common.Case, error) {
 		c.Coq = common.App("CSymbols", strList(impl), strList(full))
 		c.Obs = len(impl)
 		c.Nontrivial = len(full) >= 3
+	case "symhist":
+		var full []string
+		it := e.ir.Symbols()
+		for it.Next() {
+			full = append(full, it.At())
+		}
+		if it.Err() != nil {
+			return c, it.Err()
+		}
+		isName := map[string]bool{}
+		for _, t := range e.all {
+			isName[t.Name] = true
+		}
+		var names []string
+		for i, s := range full {
+			if isName[s] && s != "" {
+				names = append(names, common.Z(int64(i)))
+			}
+		}
+		optS := func(s string, ok bool) string {
+			if !ok {
+				return common.None
+			}
+			return common.Some(common.Bytes(s))
+		}
+		var hist []string
+		type lk struct {
+			Ref       uint32
+			Want, Got string
+		}
+		var obs []lk
+		collide := false
+		seenSlot := map[uint32]uint32{}
+		for _, o := range in.Lookups {
+			got, err := e.br.LookupSymbol(ctx, o)
+			want, okWant := "", int(o) < len(full)
+			if okWant {
+				want = full[o]
+			}
+			if ((err == nil) != okWant || (err == nil && got != want)) && c.GoPred == "" {
+				c.GoPred = fmt.Sprintf("LookupSymbol(%d) = %q, %v; the full index has %q (in range: %v)", o, got, err, want, okWant)
+				c.Sig = "symbol-history-differs"
+			}
+			if prev, ok := seenSlot[o%1024]; ok && prev != o {
+				collide = true
+			}
+			seenSlot[o%1024] = o
+			hist = append(hist, common.Tuple(common.Z(int64(o)), optS(want, okWant), optS(strings.Clone(got), err == nil)))
+			if len(obs) < 8 {
+				obs = append(obs, lk{o, strings.Clone(want), strings.Clone(got)})
+			}
+		}
+		c.Coq = common.App("CSymHist", common.List(names), common.List(hist))
+		c.Obs = obs
+		c.Nontrivial = collide
+		c.Class = fmt.Sprintf("symhist/symbols=%s/collisions=%v", bucket(len(full)/100), collide)
 	default:
 		return c, fmt.Errorf("bad kind %q", in.Kind)
 	}
 	return c, nil
+}
+
+func genSymHist(r *rand.Rand) input {
+	in := input{Kind: "symhist", Sampling: common.Pick(r, 1, 3, 32), NValues: common.Pick(r, 2200, 2200, 2300, 1100, 40)}
+	total := uint32(in.NValues + 3)
+	n := 6 + r.Intn(30)
+	for len(in.Lookups) < n {
+		k := uint32(r.Intn(int(total)))
+		switch r.Intn(5) {
+		case 0: // the three references of one cache slot
+			in.Lookups = append(in.Lookups, k%1024, k%1024+1024, k%1024+2048, k%1024)
+		case 1: // repeated lookup: cache hit
+			in.Lookups = append(in.Lookups, k, k)
+		case 2:
+			in.Lookups = append(in.Lookups, k, k+1024, k)
+		case 3:
+			in.Lookups = append(in.Lookups, total+uint32(r.Intn(3))) // past the end
+		default:
+			in.Lookups = append(in.Lookups, k)
+		}
+	}
+	return in
 }
 
 func bucket(n int) string {
@@ -576,6 +676,10 @@ func genOne(r *rand.Rand, tier string) input {
 func gen(r *rand.Rand, tier string, n int) []any {
 	var out []any
 	for i := 0; i < n; i++ {
+		if i%25 == 3 {
+			out = append(out, genSymHist(r))
+			continue
+		}
 		out = append(out, genOne(r, tier))
 	}
 	return out
